@@ -246,9 +246,12 @@ void cmdXPath(const Msg& req, Msg& resp)
             break;
         case 's':
             if (!guarded([&]() {
-                    XalanDOMString r;
+                    // the string overload APPENDS to its argument: start with a marker that must survive
+                    XalanDOMString r = dom("\xc2\xa7PRE");
                     if (haveList) xp.execute(ctxNode, s.resolver, s.ctxList, ctx, r); else xp.execute(ctxNode, s.resolver, ctx, r);
-                    resp.add("s", u8(r));
+                    std::string rs = u8(r);
+                    if (rs.compare(0, 5, "\xc2\xa7PRE") == 0) resp.add("s", rs.substr(5));
+                    else { resp.add("s", rs); resp.add("s.prefixlost", "1"); }
                 }, e2)) fail(resp, "s", e2);
             break;
         case 'c':
